@@ -28,4 +28,13 @@ Report ==
        IN f = {} \/ PrintT(ToJson([fit |-> k, failed |-> f]))
   ELSE LET f == PairFailed(Pairs[k])
        IN f = {} \/ PrintT(ToJson([pair |-> k, failed |-> f]))
+
+\* process-state sentinel (see CurveTrace.tla): default-everything calls on
+\* fresh objects, repeated between the configurations of every worker
+Sentinels == Batch.sentinels
+SentinelReport ==
+  (kind = "fit" /\ k = 1) =>
+    LET bad == {f \in DOMAIN Sentinels[1] :
+                  Cardinality({Sentinels[j][f] : j \in DOMAIN Sentinels}) > 1}
+    IN bad = {} \/ PrintT(ToJson([sentinel_fields |-> bad]))
 =============================================================================
